@@ -112,6 +112,6 @@ func sweepConsoleBounded(p *Prog, pc *PropConfig, tags string, r *checkResult) {
 	if currentTier == "thorough" {
 		bound = "<= 4 fields from {\"\", a, b, error, errors, z}"
 	}
-	r.notes = append(r.notes, fmt.Sprintf("BOUNDED (not a proof): %d (event, configuration) cases through ConsoleWriter.Write against the reference renderer; bound: "+bound+" plus a duplicated key, 14 value shapes, parts present/absent, 4 FieldsExclude x 4 FieldsOrder x 3 PartsExclude x 3 PartsOrder, colour off, default field formatters, transparent part formatters", cases))
+	r.notes = append(r.notes, fmt.Sprintf("BOUNDED (not a proof): %d (event, configuration) cases through ConsoleWriter.Write against the reference renderer; bound: "+bound+" plus a duplicated key, wide events of 5..40 integer fields with and without FieldsOrder, 14 value shapes, parts present/absent, 4 FieldsExclude x 4 FieldsOrder x 3 PartsExclude x 3 PartsOrder, colour off, default field formatters, transparent part formatters", cases))
 	r.trusted["C16: everything except needsQuote is checked by bounded enumeration only (labelled bounded, not counted as proved): default part formatters (time, level, caller, message), colours, TimeFormat/TimeLocation, custom formatters, events outside the bound"] = true
 }
